@@ -216,6 +216,45 @@ def run_C17(res, tier, seed, t_end, only_buffers=False, prop='C17'):
             res.add(finding('C17', 'decode_deep', 'pub/sub message %r for %r' % (m, v1)))
             return
         ps.close()
+        # messages that were queued before an emulated outage are handed out decoded like any other reply
+        srv_o = fakeredis.FakeServer()
+        deco = fakeredis.FakeStrictRedis(server=srv_o, decode_responses=True)
+        pso = deco.pubsub(); pso.subscribe('ch'); pso.psubscribe('c*'); pso.get_message(timeout=0.1); pso.get_message(timeout=0.1)
+        deco.publish('ch', v1 or 'x')
+        srv_o.connected = False
+        got = []
+        for _ in range(2):
+            try:
+                got.append(pso.get_message(timeout=0.2))
+            except Exception as e:      # noqa
+                got.append(repr(e))
+        srv_o.connected = True
+        res.evaluations += 1
+        res.cells.add(('decode', 'queued-before-outage'))
+        want_d = v1 or 'x'
+        if not all(isinstance(m, dict) and m.get('data') == want_d and m.get('channel') == 'ch' for m in got):
+            res.add(finding('C17', 'decode_deep', 'decode_responses=True, messages queued before an outage and read during it: %r, expected data %r and channel %r as str' % (got, want_d, 'ch')))
+            return
+        # encodings that are not ASCII-compatible: the configured codec decides, never a guess from the bytes
+        for enc in ('utf-16-le', 'utf-16', 'utf-32-be', 'cp037', 'utf-7'):
+            srv_e = fakeredis.FakeServer()
+            rawe = fakeredis.FakeStrictRedis(server=srv_e)
+            dece = fakeredis.FakeStrictRedis(server=srv_e, decode_responses=True, encoding=enc)
+            for text in ('hi', 'A', v2 or 'zz', '12'):
+                try:
+                    data = text.encode(enc)
+                    rawe.set(b'k', data); rawe.delete(b'l'); rawe.rpush(b'l', data, data)
+                    got = (dece.execute_command('GET', b'k'), dece.execute_command('LRANGE', b'l', 0, -1), dece.execute_command('MGET', b'k', b'nokey'))
+                    want = (data.decode(enc), [data.decode(enc)] * 2, [data.decode(enc), None])
+                except UnicodeError:
+                    continue
+                except Exception as e:      # noqa
+                    got, want = repr(e), None
+                res.evaluations += 1
+                res.cells.add(('decode-encoding', enc))
+                if got != want:
+                    res.add(finding('C17', 'configured_encoding_decides', 'encoding=%r, stored %r: decoding client read %r, expected %r' % (enc, data, got, want)))
+                    return
         # every subscriber gets its own view of a message: a decoding reader must not change what a raw reader receives (and vice versa)
         srv2 = fakeredis.FakeServer()
         rawc, decc, lat = (fakeredis.FakeStrictRedis(server=srv2), fakeredis.FakeStrictRedis(server=srv2, decode_responses=True),
